@@ -18,6 +18,7 @@ use crate::gen::{Gen, LinkMode};
 use crate::model::{Fault, Model};
 use crate::oracle::*;
 use crate::props::common::*;
+use crate::props::stack::*;
 use crate::scenario::*;
 
 pub fn is_fd_scenario(sc: &Scenario) -> bool {
@@ -62,6 +63,23 @@ pub fn generate(g: &mut Gen, stats: &mut GenStats) -> Scenario {
                 }
             }
             w.layers.insert(0, Layer::Fe(table));
+        }
+        // sometimes a whole stack of negations and entry filters (their discards and the failing
+        // opens pull in opposite directions: a directory a layer prunes is never listed, one that
+        // could not be opened is reported); negations are judged entry by entry, as C03 has it
+        let plain_source = match &w.source {
+            Source::Path => true,
+            Source::Glob { expr, rooted } => !*rooted && dot_kind(expr.split('/').next().unwrap_or("")).is_none(),
+        };
+        if wi == 0 && plain_source && g.rng.chance(35, 100) {
+            let mut victims = Vec::new();
+            let observer = g.rng.chance(2, 3);
+            w.layers = layers(g, &model, &w, &StackOpts { max_layers: 3, observer }, stats, &mut victims);
+            w.victims = victims;
+            w.erased = g.rng.chance(1, 4);
+            if g.rng.chance(1, 2) {
+                w.order = g.order(true);
+            }
         }
         walkers.push(w);
     }
@@ -196,7 +214,26 @@ pub fn check(sc: &Scenario, env: &mut Env) -> Result<Outcome, HarnessError> {
         let verdict_of = |p: &str| -> Verdict {
             view.saws.iter().filter(|s| s.wp.as_deref() == Some(p)).map(|s| s.verdict).max().unwrap_or(Verdict::Keep)
         };
+        // negations: an entry is discarded exactly if its root-relative path matches (C03); that a
+        // matched directory may be pruned as a tree changes nothing, everything beneath it matches too
+        let rels: Vec<String> = visits.iter().map(|v| space.rel(&v.path)).collect();
+        let mut negated: BTreeSet<&str> = BTreeSet::new();
+        for layer in &w.layers {
+            if let Layer::Not(pf) = layer {
+                let pf = crate::exec::subst_pattern(pf, &env.root_text);
+                let ms = reference_matches(&pf, &rels).map_err(HarnessError)?;
+                for (v, m) in visits.iter().zip(ms) {
+                    if m {
+                        negated.insert(v.path.as_str());
+                    }
+                }
+                out.probe("descriptor-exhaustion:under-a-negation");
+            }
+        }
         let discarded = |p: &str| -> bool {
+            if negated.contains(p) {
+                return true;
+            }
             if verdict_of(p) != Verdict::Keep {
                 return true;
             }
